@@ -35,6 +35,7 @@ type Clause struct {
 }
 
 type LoopSpec struct {
+	Step     []Clause
 	Inv      []Clause
 	Unroll   int
 	Modifies []Clause
@@ -629,6 +630,14 @@ func ParseContracts(fset *token.FileSet, filename string, src []byte, cs *Contra
 						return err
 					}
 					ls.Inv = append(ls.Inv, c)
+				case "step":
+					// loop k step <expr>: holds at the end of every iteration; atiter(e) is e with
+					// memory as it was at the start of that iteration
+					c, err := mkClause(body)
+					if err != nil {
+						return err
+					}
+					ls.Step = append(ls.Step, c)
 				case "unroll":
 					n, err := strconv.Atoi(body)
 					if err != nil {
